@@ -123,6 +123,15 @@ func (x *Exec) verify() {
 	}
 	x.w.addNameAliases(fn, x.params)
 	x.initGhost(entry)
+	if fc != nil {
+		for ord, ls := range fc.Loops {
+			if len(ls.Exits) > 0 {
+				// ghost flags of `exit` clauses exist on every path from the start (states merge key by key)
+				entry.Ghost[fmt.Sprintf("$inloop%d", ord)] = o.False()
+				entry.Ghost[fmt.Sprintf("$iter%d.reports", ord)] = o.Int(0)
+			}
+		}
+	}
 	x.entry = entry.clone()
 	env := x.specEnv(x.entry, x.entry)
 	for _, dc := range x.pk.Contracts.Domains {
